@@ -106,14 +106,29 @@ func expectation(before []Res, patterns []string, schemaScope bool, sname string
 	return
 }
 
+type viol struct{ Why, Key string }
+
 type exclResult struct {
-	Why, Key string
+	Why, Key string // the first violation
+	All      []viol // one per distinct key
 	Excluded []string // keys the reference says are excluded (self, not descendants)
 	Gone     int
 	Either   int
 	Total    int
 	TooLong  bool
 	Err      string
+}
+
+func (r *exclResult) add(key, why string) {
+	for _, v := range r.All {
+		if v.Key == key {
+			return
+		}
+	}
+	r.All = append(r.All, viol{Why: why, Key: key})
+	if r.Why == "" {
+		r.Why, r.Key = why, key
+	}
 }
 
 // judge compares what Atlas left (after / err) with the reference.
@@ -133,7 +148,7 @@ func judge(before, after []Res, err error, patterns []string, schemaScope bool, 
 		if res.TooLong {
 			return // an error is a permitted outcome: nothing is inspected, nothing can be planned
 		}
-		res.Why, res.Key = "unexpected error: "+err.Error(), "excl|unexpected-error"
+		res.add("excl|unexpected-error", "unexpected error: "+err.Error())
 		return
 	}
 	excluded, gone, either := expectation(before, patterns, schemaScope, sname)
@@ -152,28 +167,20 @@ func judge(before, after []Res, err error, patterns []string, schemaScope bool, 
 		switch {
 		case gone[i]:
 			res.Gone++
-			if ok && res.Why == "" {
-				res.Why = fmt.Sprintf("%s matches the patterns %q (or lies below a match) but is still present after exclusion", r.Key, patterns)
-				res.Key = "excl|excluded-present|" + r.Type() + "|" + lvl
+			if ok {
+				res.add("excl|excluded-present|"+r.Type()+"|"+lvl, fmt.Sprintf("%s matches the patterns %q (or lies below a match) but is still present after exclusion", r.Key, patterns))
 			}
 		case either[i]:
 			res.Either++
 		case !ok:
-			if res.Why == "" {
-				res.Why = fmt.Sprintf("%s matches none of the patterns %q but is gone after exclusion", r.Key, patterns)
-				res.Key = "excl|nonexcluded-lost|" + r.Type() + "|" + lvl
-			}
+			res.add("excl|nonexcluded-lost|"+r.Type()+"|"+lvl, fmt.Sprintf("%s matches none of the patterns %q but is gone after exclusion", r.Key, patterns))
 		case d != r.Desc:
-			if res.Why == "" {
-				res.Why = fmt.Sprintf("%s matches none of the patterns %q but changed: %q -> %q", r.Key, patterns, r.Desc, d)
-				res.Key = "excl|nonexcluded-changed|" + r.Type() + "|" + lvl
-			}
+			res.add("excl|nonexcluded-changed|"+r.Type()+"|"+lvl, fmt.Sprintf("%s matches none of the patterns %q but changed: %q -> %q", r.Key, patterns, r.Desc, d))
 		}
 	}
 	for _, r := range after {
-		if !seen[r.Key] && res.Why == "" {
-			res.Why = fmt.Sprintf("%s appeared after exclusion", r.Key)
-			res.Key = "excl|appeared|" + r.Type()
+		if !seen[r.Key] {
+			res.add("excl|appeared|"+r.Type(), fmt.Sprintf("%s appeared after exclusion", r.Key))
 		}
 	}
 	sort.Strings(res.Excluded)
@@ -552,14 +559,14 @@ func runExclDSL(cs ExclCase, before []Res) (exclResult, error) {
 		s2, xerr = schema.ExcludeSchema(s, cs.Pats)
 		if xerr == nil {
 			if s2 == nil || s2.Realm == nil {
-				return exclResult{Why: "ExcludeSchema returned no schema / realm", Key: "excl|nil-result"}, nil
+				return nilResult("ExcludeSchema returned no schema / realm"), nil
 			}
 			out = s2.Realm
 		}
 	} else {
 		out, xerr = schema.ExcludeRealm(r1, cs.Pats)
 		if xerr == nil && out == nil {
-			return exclResult{Why: "ExcludeRealm returned nil", Key: "excl|nil-result"}, nil
+			return nilResult("ExcludeRealm returned nil"), nil
 		}
 	}
 	var after []Res
@@ -567,4 +574,9 @@ func runExclDSL(cs ExclCase, before []Res) (exclResult, error) {
 		after, _ = flatten(out)
 	}
 	return judge(before, after, xerr, cs.Pats, cs.Scope == "schema", cs.Schema), nil
+}
+
+func nilResult(why string) (r exclResult) {
+	r.add("excl|nil-result", why)
+	return
 }
